@@ -521,6 +521,10 @@ func TestFileReadDir(tb testing.TB, o FSOptions) {
 		entries = append(entries, entries2...)
 		assert.Equal(tb, 2, len(entries))
 		o.assertSubsetQuickInfos(tb, asQuickDirInfos(tb, entries), asQuickDirInfos(tb, entriesAll))
+		if len(entries) == 2 {
+			// a subset check ignores repeats: the two pages must not be the same entry twice
+			assert.NotEqual(tb, entries[0].Name(), entries[1].Name())
+		}
 		o.assertSubsetQuickInfos(tb, []quickInfo{
 			{Name: "bar", Mode: hackpadfs.ModeDir | 0700, IsDir: true},
 			{Name: "foo", Mode: 0666},
